@@ -254,6 +254,21 @@ def pairwise(factors, rng, seeds=()):
     return out
 
 
+def wide_cfgs(rng, rounds):
+    """Pairwise-covering sets over the widened domain: edge values of extension / stem, failing template
+    directories, all namespaces and output-directory styles."""
+    wide = collections.OrderedDict(FACTORS_QUICK)
+    wide["ns"] = ["plain", "lookup", "solo", "random"]
+    wide["out"] = ["rel", "abs", "dotted"]
+    wide["tpl"] = ["none", "copy", "any", "nons", "nested"]
+    wide["ext"] = [None, ".xx", "yy", "", ".", ".a.b", "a/b"]
+    wide["stem"] = [None, "nsx", "a.b", ".hid", "x."]
+    out = []
+    for _ in range(rounds):
+        out += pairwise(wide, rng)
+    return out
+
+
 def full_grid(factors):
     names = list(factors)
     for vals in itertools.product(*(factors[n] for n in names)):
@@ -822,22 +837,18 @@ def run(ctx: common.Ctx):
     if ctx.quick:
         grid = pairwise(FACTORS_QUICK, ctx.rng)
     else:
-        f = collections.OrderedDict(FACTORS_QUICK)
-        f["ns"] = ["plain"]
-        f["out"] = ["rel"]
-        grid = list(full_grid(f))
-        ctx.rng.shuffle(grid)
-        wide = collections.OrderedDict(FACTORS_QUICK)
-        wide["ns"] = ["plain", "lookup", "solo", "random"]
-        wide["out"] = ["rel", "abs", "dotted"]
-        wide["tpl"] = ["none", "copy", "any", "nons", "nested"]
-        wide["ext"] = [None, ".xx", "yy", "", ".", ".a.b", "a/b"]
-        wide["stem"] = [None, "nsx", "a.b", ".hid", "x."]
-        for _ in range(3):
-            grid += pairwise(wide, ctx.rng)
+        grid = wide_cfgs(ctx.rng, 3)
+        # the full product of the decision-relevant factors; the remaining ones are drawn per configuration
+        f = collections.OrderedDict((k, FACTORS_QUICK[k]) for k in ("lang", "gs", "omit", "gnt", "tpl", "ext", "stem"))
+        full = list(full_grid(f))
+        ctx.rng.shuffle(full)
+        for c in full:
+            c.update(stpl=ctx.rng.choice(["none", "shadow"]), ns=ctx.rng.choice(["plain", "lookup", "solo", "random"]),
+                     out=ctx.rng.choice(["rel", "abs", "dotted"]))
+        grid += full
     ctx.extra["domain"] = {"corpus": len(corpus), "grid_configurations": len(grid)}
     run_stream(ctx, "corpus", corpus, specs, drv, src, pkg_lang_dir)
-    run_stream(ctx, "grid", grid, specs, drv, src, pkg_lang_dir, budget_s=None if ctx.quick else 1080)
+    run_stream(ctx, "grid", grid, specs, drv, src, pkg_lang_dir, budget_s=None if ctx.quick else 900)
 
     pkg_after = fss.snapshot([src / "nunavut"])
     pd = fss.diff(pkg_before, pkg_after)
